@@ -140,8 +140,8 @@ fn main() {
             let t0 = Instant::now();
             let mut rep = Report::default();
             run_replays(&main, &findings, &mut rep);
-            rep.merge(run_prop(&main, cases_for(tier, 6000, 120000), seed, 0, &findings));
-            rep.merge(run_prop(&skv_verif::fmt_sst::c13(200), cases_for(tier, 300, 6000), seed, 1, &findings));
+            rep.merge(run_prop(&main, cases_for(tier, 30000, 150000), seed, 0, &findings));
+            rep.merge(run_prop(&skv_verif::fmt_sst::c13(200), cases_for(tier, 1200, 8000), seed, 1, &findings));
             let laws = run_prop(&skv_verif::fmt_sst::cmp_def(), cases_for(tier, 40000, 800000), seed, 2, &findings);
             rep.extra.insert("comparator_law_cases".into(), serde_json::json!(laws.evaluations));
             rep.extra.insert("comparator_law_cases_with_shortened_separator".into(), serde_json::json!(laws.nontrivial.len()));
@@ -189,9 +189,9 @@ fn main() {
             let t0 = Instant::now();
             let mut rep = Report::default();
             run_replays(&main, &findings, &mut rep);
-            rep.merge(run_prop(&main, cases_for(tier, 4000, 60000), seed, 0, &findings));
-            rep.merge(run_prop(&skv_verif::fmt_bptree::c18(300, false), cases_for(tier, 300, 6000), seed, 1, &findings));
-            rep.merge(run_prop(&skv_verif::fmt_bptree::c18(60, true), cases_for(tier, 400, 6000), seed, 2, &findings));
+            rep.merge(run_prop(&main, cases_for(tier, 20000, 100000), seed, 0, &findings));
+            rep.merge(run_prop(&skv_verif::fmt_bptree::c18(300, false), cases_for(tier, 1500, 8000), seed, 1, &findings));
+            rep.merge(run_prop(&skv_verif::fmt_bptree::c18(60, true), cases_for(tier, 2000, 10000), seed, 2, &findings));
             let fuzz_ok = fuzz_campaign(&mut rep, tier, "bptree_ops", 40000, 256);
             if !fuzz_ok && rep.violations.is_empty() {
                 let _ = finish(main.id, main.level, tier, seed, &main.rule, &main.assumptions, &rep, t0.elapsed().as_secs_f64(), &findings);
@@ -216,8 +216,8 @@ fn main() {
             let mut rep = Report::default();
             run_replays(&main, &findings, &mut rep);
             run_replays(&sched, &findings, &mut rep);
-            rep.merge(run_prop(&main, cases_for(tier, 20000, 400000), seed, 0, &findings));
-            rep.merge(run_prop(&sched, cases_for(tier, 4000, 80000), seed, 1, &findings));
+            rep.merge(run_prop(&main, cases_for(tier, 50000, 500000), seed, 0, &findings));
+            rep.merge(run_prop(&sched, cases_for(tier, 10000, 100000), seed, 1, &findings));
             enumerate_into(&mut rep, tier, "C01", Flavor::C01, &findings);
             let rule = format!("{} || SECOND STREAM ({}) || SYSTEMATIC PART: coverage.systematic_enumeration", main.rule, sched.rule);
             finish(main.id, main.level, tier, seed, &rule, &main.assumptions, &rep, t0.elapsed().as_secs_f64(), &findings)
@@ -270,8 +270,8 @@ fn main() {
             let t0 = Instant::now();
             let mut rep = Report::default();
             run_replays(&main, &findings, &mut rep);
-            rep.merge(run_prop(&main, cases_for(tier, 2500, 50000), seed, 0, &findings));
-            rep.merge(run_prop(&orc, cases_for(tier, 40000, 800000), seed, 1, &findings));
+            rep.merge(run_prop(&main, cases_for(tier, 8000, 80000), seed, 0, &findings));
+            rep.merge(run_prop(&orc, cases_for(tier, 100000, 1000000), seed, 1, &findings));
             enumerate_into(&mut rep, tier, "C04", Flavor::C04, &findings);
             let rule = format!("{} || SECOND STREAM ({})", main.rule, orc.rule);
             finish(main.id, main.level, tier, seed, &rule, &main.assumptions, &rep, t0.elapsed().as_secs_f64(), &findings)
@@ -287,7 +287,7 @@ fn main() {
             let t0 = Instant::now();
             let mut rep = Report::default();
             run_replays(&main, &findings, &mut rep);
-            rep.merge(run_prop(&main, cases_for(tier, 2500, 50000), seed, 0, &findings));
+            rep.merge(run_prop(&main, cases_for(tier, 8000, 80000), seed, 0, &findings));
             enumerate_into(&mut rep, tier, "C05", Flavor::C05, &findings);
             let rule = format!("{} || SYSTEMATIC PART: for fixed small programs (coverage.systematic_enumeration) every schedule with at most 1 (quick) / 2 (thorough) pre-emptions over every base order of the actors, same oracle.", main.rule);
             finish(main.id, main.level, tier, seed, &rule, &main.assumptions, &rep, t0.elapsed().as_secs_f64(), &findings)
@@ -304,7 +304,7 @@ fn main() {
             use skv_verif::engine_sched::{sched_prop, Flavor};
             run_model(vec![(sched_prop("C01", Flavor::C01), 2000, 40000)], tier, replay)
         }
-        "C06" => run_model(vec![(props::c06(), 6000, 120000)], tier, replay),
+        "C06" => run_model(vec![(props::c06(), 16000, 150000)], tier, replay),
         "C07" => {
             use skv_verif::engine_crash::{crash_prop, Judge};
             let findings = Findings::load();
@@ -329,9 +329,9 @@ fn main() {
             rep.merge(run_prop(&crash, cases_for(tier, 40, 1200), seed, 2, &findings));
             finish(main.id, main.level, tier, seed, &main.rule, &main.assumptions, &rep, t0.elapsed().as_secs_f64(), &findings)
         }
-        "C08" => run_model(vec![(props::c08(), 40000, 800000)], tier, replay),
-        "C09" => run_model(vec![(props::c09(), 30000, 600000)], tier, replay),
-        "C10" => run_model(vec![(props::c10(false, true), 5000, 100000), (props::c10(true, false), 5000, 100000), (props::c10(true, true), 500, 10000), (props::c10_backdated(), 3000, 60000)], tier, replay),
+        "C08" => run_model(vec![(props::c08(), 120000, 1000000)], tier, replay),
+        "C09" => run_model(vec![(props::c09(), 90000, 800000)], tier, replay),
+        "C10" => run_model(vec![(props::c10(false, true), 12000, 120000), (props::c10(true, false), 12000, 120000), (props::c10(true, true), 1500, 15000), (props::c10_backdated(), 8000, 80000)], tier, replay),
         "C11" => {
             use skv_verif::engine_sched::{sched_prop, Flavor};
             let findings = Findings::load();
@@ -349,12 +349,12 @@ fn main() {
             let mut rep = Report::default();
             run_replays(&main, &findings, &mut rep);
             run_replays(&sched, &findings, &mut rep);
-            rep.merge(run_prop(&main, cases_for(tier, 10000, 200000), seed, 0, &findings));
-            rep.merge(run_prop(&sched, cases_for(tier, 2500, 50000), seed, 1, &findings));
+            rep.merge(run_prop(&main, cases_for(tier, 25000, 250000), seed, 0, &findings));
+            rep.merge(run_prop(&sched, cases_for(tier, 6000, 60000), seed, 1, &findings));
             let rule = format!("{} || SECOND STREAM ({})", main.rule, sched.rule);
             finish(main.id, main.level, tier, seed, &rule, &main.assumptions, &rep, t0.elapsed().as_secs_f64(), &findings)
         }
-        "C14" => run_model(vec![(props::c14(Some(false), Some(0)), 8000, 150000), (props::c14(Some(true), Some(0)), 600, 10000), (props::c14(Some(false), None), 600, 10000)], tier, replay),
+        "C14" => run_model(vec![(props::c14(Some(false), Some(0)), 20000, 200000), (props::c14(Some(true), Some(0)), 1500, 15000), (props::c14(Some(false), None), 1500, 15000)], tier, replay),
         _ => {
             eprintln!("unknown or unimplemented property {id}");
             2
